@@ -1,5 +1,6 @@
 """Per-property check recipes (DESIGN.md section 6)."""
 import json
+import re
 import os
 
 from vcheck import Infra, finish, log, VERIF
@@ -196,7 +197,7 @@ def check_C12(ctx):
 
 # --------------------------------------------------------------------------- C08
 
-C08_LAWS = ["IndexLaw", "SizeFirstLast", "MapSizeFallback", "NilPropagates", "StrictOnlyFinal", "PipelineIsSequential",
+C08_LAWS = ["RangeLaw", "IndexLaw", "SizeFirstLast", "MapSizeFallback", "NilPropagates", "StrictOnlyFinal", "PipelineIsSequential",
             "BadIsError"]
 
 
@@ -439,6 +440,26 @@ def engine_cfg(pol="MCPol", budget=3, cells=()):
             % (budget, pol, " ".join(ENGINE_INV)))
 
 
+PARSE_KINDS = {"badobj", "badtag", "unknowntag", "strayend", "strayclause", "strayelse", "badif", "openif", "openraw", "opencomment"}
+
+
+def ill_formed(nodes):
+    """does the program contain a construct that cannot parse (the kinds of MC_C06/MC_C07)?"""
+    for n in nodes:
+        if not isinstance(n, dict):
+            continue
+        if n.get("t") in PARSE_KINDS:
+            return True
+        for f in ("body", "else"):
+            if isinstance(n.get(f), list) and ill_formed(n[f]):
+                return True
+        for f in ("branches", "whens"):
+            for b in n.get(f, []) or []:
+                if isinstance(b, dict) and ill_formed(b.get("body", [])):
+                    return True
+    return False
+
+
 def session_events(obs_list, tag=""):
     events, index = [], {}
     for o in obs_list:
@@ -454,6 +475,10 @@ def session_events(obs_list, tag=""):
             e = {"id": eid, "sid": str(o["id"]), "t": ev["t"], "b": ev["b"], "entry": ev["entry"],
                  "prog": o["templates"][ev["t"]], "env": o["envabs"][ev["b"]], "before": ev["before"], "after": ev["after"],
                  "outcome": ev["outcome"], "out": ev.get("out", [])}
+            if ev["outcome"] == "error":
+                e["msg"] = re.sub(r"/tmp/lqh\d+", "<tmp>", ev.get("msg", ""))
+            if ill_formed(e["prog"]):
+                e["illformed"] = True
             if o.get("anyorder"):
                 e["anyorder"] = o["anyorder"]
             if o.get("cache"):
@@ -632,6 +657,12 @@ def check_C04(ctx):
         con_obs_all.append(ctx.run_cases(cs, deadline=300, workers=2, binary=race_bin))
     os.environ.pop("GORACE", None)
     validate_sessions(ctx, [seq_obs] + con_obs_all)
+    for obs in con_obs_all:
+        for o in obs:
+            if o.get("colddiffs"):
+                oo = {"id": str(o["id"]) + "#cold", "kind": "session", "text": "; ".join(o["colddiffs"][:6])[:1500], "outcome": "differs"}
+                ctx.reject(oo, None, "a parse on an engine used for the first time by several goroutines at once did not "
+                                     "report what the same parse reports alone (%d differences)" % len(o["colddiffs"]))
     reports = []
     for f in glob.glob(os.path.join(racedir, "r.*")):
         txt = open(f).read()
@@ -672,14 +703,24 @@ def check_C01(ctx):
                                             ["PartitionSoFar", "LinesSoFar", "IdentityAtEnd", "EmitCase"]), timeout=3000, heap="16g")
     ctx.validate(ctx.run_cases(scases), module="TraceC05", nontrivial_key=lambda o: o["text"], chunk=20000)
     n = 3000 if ctx.quick else 60000
+    def some_without_bindings(cases, every):
+        """every n-th case is rendered with no bindings at all (the caller passes nil)"""
+        for k, g in enumerate(cases):
+            if k % every == every - 1:
+                g["env"] = []
+                for f in ("weird", "testenv", "repr"):
+                    g.pop(f, None)
+        return cases
+
     for kind in ("fuzztext", "mutants"):
-        gen = ctx.gen(kind, n)
+        gen = some_without_bindings(ctx.gen(kind, n), 6)
         ctx.validate(ctx.run_cases(gen, deadline=30), module="TraceC01", nontrivial_key=lambda o: o.get("text", ""))
     pairs = ctx.gen("weirdpairs", 45 * 45 * 22)
     ctx.validate(ctx.run_cases(pairs, deadline=30), module="TraceC01", nontrivial_key=lambda o: o.get("text", ""))
     progs = ctx.gen("prog", 2000 if ctx.quick else 30000)
     for g in progs:
         g["weird"] = True
+    some_without_bindings(progs, 5)
     ctx.validate(ctx.run_cases(progs), module="TraceC01", nontrivial_key=lambda o: o.get("text", ""))
     ctx.exhaustive = False
     return finish(ctx, rule="MC_C01: the filter boundary matrix (49 filters x 31 boundary receivers x 0-2 arguments from 16 boundary "
